@@ -30,7 +30,8 @@ PROFILES = {
     'c02': {},
     'c03': dict(kinds=dict(handler=2, proc=5, buffer=4, batcher=1, gates=1, path=2), p_resources=0.7,
                 n_ops=(2, 5, 10, 20, 40), n_layers=(1, 2, 2, 3), horizon=(5, 10, 10, 20)),
-    'c05': dict(p_decimal=0.15, kinds=dict(handler=2, proc=3, buffer=8, batcher=1, gates=0, path=1), p_batch_source=0.4,
+    'c05': dict(p_decimal=0.15, kinds=dict(handler=2, proc=3, buffer=8, batcher=1, gates=0, path=2), p_batch_source=0.4,
+                p_group_buffer=0.5,
                 width=(2, 2, 3), n_sources=(1, 2, 2)),
     'c06': dict(kinds=dict(handler=4, proc=6, buffer=2, batcher=0, gates=1, path=1),
                 fault_kinds=('fail', 'shutdown', 'restore', 'wo', 'offset', 'ct', 'block', 'wake', 'fail', 'shutdown', 'restore', 'wo'),
@@ -193,9 +194,11 @@ def _gen_spec(rng, profile_name, P):
                 d = mk_proc(mname, up, gname)
             else:
                 d = mk_handler(mname, up, gname)
-            if rng.random() < 0.15 and d['k'] != 'path':
+            if rng.random() < P.get('p_group_buffer', 0.15) and d['k'] != 'path':
                 # a small buffer inside the group
-                d = {'k': 'buffer', 'n': mname, 'up': up, 'cap': rng.choice((1, 2)), 'delay': 0, 'in': gname}
+                # (with a minimum delay now and then: a part that comes through the group twice waits twice)
+                d = {'k': 'buffer', 'n': mname, 'up': up, 'cap': rng.choice((1, 2, 2, 3)), 'delay': rng.choice((0, 0, 0.25, 0.5, 1)),
+                     'in': gname}
             members.append(add(d))
             prev = mname
         gd = {'k': 'group', 'n': gname, 'members': members}
